@@ -1494,3 +1494,159 @@ func init() {
 		Doc: "assembler termination: every store to compile.OpArg's width flag stores true or a disjunction containing the flag's previous value (a latch), so instruction sizes never shrink between passes and Assemble's `positions did not settle` panic stays unreachable",
 		Run: runWideLatch})
 }
+
+// ---- C16.R9: a walk over the MRO ends only on a hit ----
+//
+// Type.IsSubtype and Type.Lookup answer by walking the MRO tuple from the front. A C3 linearisation is not sorted by
+// depth (a shallow base can precede a deep one), so nothing about an entry's position or size says the rest cannot
+// match: the walk may end early only because it found what it was looking for. Decided on the statements (helpers put
+// back): every exit from a range loop over an Mro (return, break, goto, continue to an outer loop) is governed, inside
+// the loop, only by equality tests, found-flags and nil tests — no ordering comparison and no len().
+func runMroWalkExhaustive(c *Ctx, r *Rep) {
+	p := c.MustPkg("py")
+	info := p.TypesInfo
+	n := 0
+	for _, name := range []string{"IsSubtype", "Lookup"} {
+		fd := c.MethodDeclX("py", "Type", name)
+		if fd == nil || fd.Body == nil {
+			r.undecided("mrowalk|(*py.Type)."+name, token.NoPos, "method not found")
+			continue
+		}
+		r.analysed("(*py.Type)." + name)
+		mroAlias := map[types.Object]bool{}
+		ast.Inspect(fd.Body, func(nd ast.Node) bool {
+			if as, ok := nd.(*ast.AssignStmt); ok {
+				for i, rh := range as.Rhs {
+					if sel, ok := unparen(rh).(*ast.SelectorExpr); ok && sel.Sel.Name == "Mro" && i < len(as.Lhs) {
+						if id := identOf(as.Lhs[i]); id != nil {
+							if o := info.ObjectOf(id); o != nil {
+								mroAlias[o] = true
+							}
+						}
+					}
+				}
+			}
+			return true
+		})
+		loops := 0
+		ast.Inspect(fd.Body, func(nd ast.Node) bool {
+			rs, ok := nd.(*ast.RangeStmt)
+			if !ok {
+				return true
+			}
+			isMro := false
+			switch y := unparen(rs.X).(type) {
+			case *ast.SelectorExpr:
+				isMro = y.Sel.Name == "Mro"
+			case *ast.Ident:
+				isMro = mroAlias[info.Uses[y]]
+			}
+			if !isMro {
+				return true
+			}
+			loops++
+			var stack []ast.Node
+			var bad []string
+			var badPos token.Pos
+			ordering := func(e ast.Expr) string {
+				why := ""
+				ast.Inspect(e, func(m ast.Node) bool {
+					switch x := m.(type) {
+					case *ast.BinaryExpr:
+						switch x.Op {
+						case token.LSS, token.LEQ, token.GTR, token.GEQ:
+							why = exprStr(x)
+						}
+					case *ast.CallExpr:
+						if exprStr(x.Fun) == "len" {
+							why = exprStr(x)
+						}
+					}
+					return why == ""
+				})
+				return why
+			}
+			ast.Inspect(rs.Body, func(m ast.Node) bool {
+				if m == nil {
+					stack = stack[:len(stack)-1]
+					return true
+				}
+				stack = append(stack, m)
+				what := ""
+				switch x := m.(type) {
+				case *ast.FuncLit:
+					stack = stack[:len(stack)-1]
+					return false
+				case *ast.ReturnStmt:
+					what = "return"
+				case *ast.BranchStmt:
+					switch {
+					case x.Tok == token.GOTO, x.Label != nil:
+						what = x.Tok.String() + " " + x.Label.Name
+					case x.Tok == token.BREAK:
+						what = "break"
+						for i := len(stack) - 2; i >= 0; i-- {
+							switch stack[i].(type) {
+							case *ast.SwitchStmt, *ast.TypeSwitchStmt, *ast.SelectStmt, *ast.ForStmt, *ast.RangeStmt:
+								what = "" // leaves an inner statement only
+								i = -1
+							}
+						}
+					}
+				}
+				if what == "" {
+					return true
+				}
+				for i := len(stack) - 2; i >= 0; i-- {
+					child := stack[i+1]
+					var conds []ast.Expr
+					switch par := stack[i].(type) {
+					case *ast.IfStmt:
+						if par.Body == child || par.Else == child {
+							conds = append(conds, par.Cond)
+						}
+					case *ast.CaseClause:
+						conds = append(conds, par.List...)
+						if i > 1 {
+							if sw, ok := stack[i-2].(*ast.SwitchStmt); ok && sw.Tag == nil {
+								for _, cl := range sw.Body.List {
+									if cl.Pos() < par.Pos() {
+										conds = append(conds, cl.(*ast.CaseClause).List...)
+									}
+								}
+							}
+						}
+					}
+					for _, cd := range conds {
+						if why := ordering(cd); why != "" {
+							bad = append(bad, fmt.Sprintf("`%s` at %s depends on `%s`", what, c.Pos(m.Pos()), why))
+							if badPos == token.NoPos {
+								badPos = m.Pos()
+							}
+						}
+					}
+				}
+				return true
+			})
+			n++
+			pos := rs.Pos()
+			if badPos != token.NoPos {
+				pos = badPos
+			}
+			r.check(len(bad) == 0, fmt.Sprintf("mrowalk|(*py.Type).%s|walk %d ends only on a hit", name, loops), pos,
+				"every exit from the walk over the MRO is governed by equality / found tests only",
+				fmt.Sprintf("the walk over the MRO in (*Type).%s can end before the tuple is exhausted for a reason other than a hit: %s. A C3 linearisation is not ordered by depth or size — a shallow base can precede a deep one — so entries after the exit can still match: issubclass/isinstance/except matching (or attribute lookup) miss a base that is on the MRO", name, strings.Join(bad, "; ")))
+			return true
+		})
+		if loops == 0 {
+			r.undecided("mrowalk|(*py.Type)."+name+"|loop", fd.Pos(), "no range loop over an Mro found (helpers put back)")
+		}
+	}
+	_ = n
+}
+
+func init() {
+	register(&Rule{ID: "C16.R9", Prop: "C16", Floor: 2,
+		Doc: "the MRO walks of py.Type.IsSubtype and py.Type.Lookup (helpers put back) end early only on a hit: every return/break/goto inside the range loop over an Mro is governed by equality tests, found-flags and nil tests only — never by an ordering comparison or a len(): a C3 linearisation is not sorted by depth",
+		Run: runMroWalkExhaustive})
+}
